@@ -482,19 +482,20 @@ func (r *Batcher) Stop() {
 
 	// only allow one phase at a time
 	r.phaseMutex.Lock()
-	defer r.phaseMutex.Unlock()
 	if r.phase == batcherPhaseStopped {
 		// NOTE: there should be no need for callers to handle errors at Stop(), we will just ignore them
+		r.phaseMutex.Unlock()
 		return
 	}
 
-	// signal the stop
+	// update the phase and signal the stop
+	r.phase = batcherPhaseStopped
 	if r.stop != nil {
 		close(r.stop)
 	}
-	r.shutdown.Wait()
 
-	// update the phase
-	r.phase = batcherPhaseStopped
+	// NOTE: the mutex must not be held while waiting; a paused processing loop needs it in resume() before it can see the stop
+	r.phaseMutex.Unlock()
+	r.shutdown.Wait()
 
 }
